@@ -83,7 +83,7 @@ func c01Compare(s *c01Src, cfg Cfg) (kind, detail string) {
 }
 
 func c01Run(c *core.Ctx) {
-	processWarmup()
+	processWarmup(c)
 	cfgs := Cfgs(c.Thorough(), false)
 	cfgs = append(cfgs, Cfg{Map: true}, Cfg{Pretty: true, Indent: -2, Semi: -1, Map: true})
 	c.Note("configurations", fmt.Sprint(len(cfgs)))
